@@ -515,6 +515,8 @@ func init() {
 			{Name: "trace", Count: countFn(10000, 600000), Run: c02Trace},
 			{Name: "diff", Count: countFn(8000, 400000), Run: c02Diff},
 			{Name: "yieldoperand", Count: countFn(600, 30000), Run: c02YieldOperand},
+			{Name: "yieldedclosures", Count: countFn(2500, 100000), Run: func(ctx *core.Ctx, idx int) core.Result { return hofCase("C02", ctx, idx, -1) }},
+			{Name: "deeploops", Count: countFn(48, 1200), Run: func(ctx *core.Ctx, idx int) core.Result { return depthCase("C02", ctx, idx) }},
 		},
 		Floors: []core.Floor{{Key: "trace_events", Quick: 60000, Thor: 8000000}, {Key: "yields", Quick: 20000, Thor: 2000000}, {Key: "tag:stage:", Quick: 10, Thor: 10}, {Key: "tag:consumer:", Quick: 6, Thor: 6}, {Key: "tag:yield-operand:", Quick: 6, Thor: 6}, {Key: "context_clone_reuse", Quick: 500, Thor: 50000}},
 	})
